@@ -15,14 +15,14 @@ RULE = ('(function/flag, n, matrix type, spectrum {separated, degenerate}, k = t
         'undetected exhaustion), orthonormal-Ritz clauses only for '
         'm < k; distinct = distinct descriptor; non-trivial for n>=2')
 BOUNDS = {'quick': 'n<=10, m in {1..n,n+1,2n}, every k, ||A||<=8 (<=10), |dt|*||A||<=5',
-          'thorough': 'same, 6 repetitions'}
+          'thorough': 'same, 30 repetitions (quick: 2)'}
 EXHAUSTIVE = {'quick': False, 'thorough': False}
 TOL = 1e-9
 
 
 def cases(tier, seed):
     rng = np.random.default_rng(seed)
-    reps = 1 if tier == 'quick' else 6
+    reps = 2 if tier == 'quick' else 30
     for n in range(1, 11):
         for spec in h.SPECTRA:
             nd = n if spec == 'separated' else max(1, (n + 1) // 2)
@@ -74,6 +74,8 @@ def run_case(c):
                         warnings.simplefilter('ignore')
                         w, u = krylov.eigh_krylov(Afunc, v, m, numeig)
                 except Exception as e:
+                    if type(e).__name__ == 'CaseTimeout':      # the runner's wall-clock alarm must reach the runner
+                        raise
                     fail('returns', f'{tag}: raised {type(e).__name__}: {e}')
                     continue
                 if not np.array_equal(v, v0):
@@ -127,6 +129,8 @@ def run_case(c):
                     warnings.simplefilter('ignore')
                     out = krylov.expm_krylov(Afunc, v, dt, m, hermitian=herm)
             except Exception as e:
+                if type(e).__name__ == 'CaseTimeout':      # the runner's wall-clock alarm must reach the runner
+                    raise
                 fail('returns', f'{tag}: raised {type(e).__name__}: {e}')
                 continue
             if not np.array_equal(v, v0):
